@@ -668,7 +668,7 @@ static int ec_quit(char *loc, char *cmd, char *arg, char *txt)
 
 static int ec_insert(char *loc, char *cmd, char *arg, char *txt)
 {
-	int beg, end;
+	int beg = -1, end = -1;	/* not set by ex_region() for a bad address */
 	int n;
 	if (ex_region(loc, &beg, &end) && (beg != 0 || end != 0))
 		return 1;
